@@ -233,7 +233,7 @@ theorem wrong_role_rejected (s : State) (m : Msg) (h : m.frm.role ≠ senderRole
     · exact h h1
     · rw [h2] at h; cases h
   refine ⟨hv, ?_⟩
-  rcases deliver_cases s m with ⟨s', hv', _, _⟩ | ⟨msg, hd, _⟩
+  rcases deliver_cases_D s m with ⟨s', hv', _, _⟩ | ⟨msg, hd, _⟩
   · exact absurd hv' hv
   · rw [hd]; exact ⟨by simp, rfl⟩
 
@@ -250,7 +250,7 @@ theorem wrong_role_other_rejected (s : State) (m : Msg) (t : TextAddr) (r : Role
     · exact h h1
     · rw [h2] at h; cases h
   refine ⟨hv, ?_⟩
-  rcases deliver_cases s m with ⟨s', hv', _, _⟩ | ⟨msg, hd, _⟩
+  rcases deliver_cases_D s m with ⟨s', hv', _, _⟩ | ⟨msg, hd, _⟩
   · exact absurd hv' hv
   · rw [hd]; exact ⟨by simp, rfl⟩
 
@@ -313,7 +313,7 @@ link, subscription, allocation, payout and session record outside the message's 
 unchanged. -/
 theorem changes_within_footprint (s : State) (hk : KeysOK s) (m : Msg) :
     ChangesWithin (footprint s m) s (deliver s m).1 := by
-  rcases deliver_cases s m with ⟨s', _, hh, hd⟩ | ⟨msg, hd, _⟩
+  rcases deliver_cases_D s m with ⟨s', _, hh, hd⟩ | ⟨msg, hd, _⟩
   · rw [hd]
     have := handle_within_footprint hk.clr hh
     rw [footprint_clr] at this
